@@ -22,7 +22,9 @@ CFG = {
             "(incl. modexp-shaped inputs with huge lengths); gas from a boundary lattice, uniform and log-uniform up to the block limit, plus 2^41..2^43 "
             "for self-recursion (the only way to reach depth 1025 under the 63/64 rule); five rule sets (homestead / homestead+HF1 gas / byzantium / "
             "HF5-before-HF7 / spring); plus arity probes: every opcode byte x stack heights 0..8 (0..18 for DUP/SWAP) x 5 rule sets with zero/small/huge "
-            "operands (~8 200 runs). Non-trivial = at least 3 interpreter steps executed.",
+            "operands (~8 200 runs); plus a precompile lattice (16 472 direct calls): addresses 1..9 x 5 rule sets, modexp headers = all 729 "
+            "combinations of baseLen/expLen/modLen in {0,1,32,2^16,2^26,2^31,2^62,2^64-1,2^255} with/without data, 0..1 MiB real inputs, gas 0 / "
+            "required-1 / required / plenty, with the heap allocation of the call measured (TotalAlloc delta) and bounded by 1 MiB + 256 B x gas charged. Non-trivial = at least 3 interpreter steps executed.",
     "tie": {"core/vm.toWordSize, core/vm.memoryGasCost (mini-translator)": "translated (go/ssa -> Lean on every run; toWordSize_code_is_model, memoryGasCost_code_refines_model for requests <= 0x1fffffffe0 bytes) + corr",
             "core/vm/jump_table.go (5 instruction sets), params gas tables and constants, precompile address sets, NewInterpreter/Rules selection":
                 "gen (values dumped from the compiled program; enumerations of gas/memory/execute functions the model must match exhaustively)",
@@ -34,6 +36,9 @@ CFG = {
             "evm.go Call/CallCode/DelegateCall/StaticCall/Create/run, opCall*/opCreate gas plumbing":
                 "corr (per run: outcome class, leftover gas, step count, max depth, max memory, checksum over gas/cost/memory/depth/stack of "
                 "every step; Go vs Aqv.Model.Vm.run replaying the recorded oracle)",
+            "contracts.go RequiredGas of all precompiles, bigModExp header / exponent-head / early-return handling, getData":
+                "corr (outcome, leftover gas, output length per lattice call vs Aqv.Model.VmPrecompile; measured allocation <= 1 MiB + 16 x modelled buffers) "
+                "+ theorem modexp_alloc_bounded_by_gas",
             "instructions.go execute bodies (values, big.Int conversions other than memory operands, slices), memory.go, stack.go, contracts.go (precompiles), core/state journal":
                 "direct Spec judgement on the real code (no panic, terminates, leftover ≤ given, memory paid, depth, failed-frame world "
                 "equality, static world equality)"},
